@@ -201,6 +201,7 @@ pub enum SyntaxError {
     TrailingTokensAfterProgramEnd,
     ReservedKeyword,
     InvalidAssignmentTarget,
+    NestingTooDeep,
 }
 
 impl AsStr for SyntaxError {
@@ -221,6 +222,7 @@ impl AsStr for SyntaxError {
             SyntaxError::TrailingTokensAfterProgramEnd => "Unexpected token",
             SyntaxError::ReservedKeyword => "Use of reserved keyword",
             SyntaxError::InvalidAssignmentTarget => "Invalid assignment target",
+            SyntaxError::NestingTooDeep => "Nesting too deep",
         }
     }
 }
@@ -241,13 +243,24 @@ where
     cur: SpannedToken<'ast>,
     errors: Diagnostics<'ast>,
     arena: &'ast Arena,
+    // How deep the tree under construction is at the current token, and whether
+    // the limit was hit (parsing stops there).
+    depth: usize,
+    too_deep: bool,
 }
+
+/// Deepest nesting of statements and expressions the parser accepts.
+///
+/// The parser, the resolver, the analyses and the runtime all walk the tree
+/// recursively, so an unbounded depth is a native stack overflow waiting to
+/// happen. Chains like `a add b add c` count too: they build a tree that deep.
+pub const MAX_NESTING_DEPTH: usize = 256;
 
 impl<'src: 'ast, 'ast> Parser<'src, 'ast> {
     /// Creates a new [`Parser`] instance.
     pub fn new(mut lexer: Lexer<'ast, 'src>, arena: &'ast Arena) -> Self {
         let cur = lexer.next().unwrap_or_default();
-        Self { lexer, cur, errors: Diagnostics::new(arena), arena }
+        Self { lexer, cur, errors: Diagnostics::new(arena), arena, depth: 0, too_deep: false }
     }
 
     #[inline]
@@ -270,7 +283,41 @@ impl<'src: 'ast, 'ast> Parser<'src, 'ast> {
     }
 
     fn emit_error(&mut self, span: Span, error: SyntaxError, labels: Vec<Label<'ast>>) {
+        // Once the nesting limit is hit the rest of the input is skipped; whatever
+        // the unwinding callers still expect is noise.
+        if self.too_deep {
+            return;
+        }
         self.errors.emit(span, Severity::Error, "syntax", error.as_str(), labels);
+    }
+
+    /// Goes one level deeper. Past [`MAX_NESTING_DEPTH`] it reports the error once,
+    /// skips to the end of the input so every caller unwinds, and returns false.
+    fn descend(&mut self) -> bool {
+        self.depth += 1;
+        self.within_limit(self.depth)
+    }
+
+    fn within_limit(&mut self, depth: usize) -> bool {
+        if depth <= MAX_NESTING_DEPTH {
+            return true;
+        }
+        if !self.too_deep {
+            let span = self.cur.span;
+            self.emit_error(
+                span,
+                SyntaxError::NestingTooDeep,
+                vec![Label {
+                    span,
+                    message: ArenaCow::Borrowed("Dis code nest pass wetin I fit follow"),
+                }],
+            );
+            self.too_deep = true;
+            while self.cur.token != Token::EOF {
+                self.bump();
+            }
+        }
+        false
     }
 
     /// Returns the parsed program as a Block reference.
@@ -351,6 +398,17 @@ impl<'src: 'ast, 'ast> Parser<'src, 'ast> {
 
     #[inline]
     fn parse_statement(&mut self) -> StmtRef<'ast> {
+        let stmt = if self.descend() {
+            self.parse_statement_inner()
+        } else {
+            let expr = self.alloc(Expr::Null(Range::default()));
+            self.alloc(Stmt::Expression { expr, span: Range::default() })
+        };
+        self.depth -= 1;
+        stmt
+    }
+
+    fn parse_statement_inner(&mut self) -> StmtRef<'ast> {
         let start = self.cur.span.start;
         match &self.cur.token {
             Token::Do => self.parse_function_def(start),
@@ -862,6 +920,16 @@ impl<'src: 'ast, 'ast> Parser<'src, 'ast> {
 
     #[inline]
     fn parse_expression(&mut self, min_bp: u8) -> ExprRef<'ast> {
+        let expr = if self.descend() {
+            self.parse_expression_inner(min_bp)
+        } else {
+            self.alloc(Expr::Null(self.cur.span))
+        };
+        self.depth -= 1;
+        expr
+    }
+
+    fn parse_expression_inner(&mut self, min_bp: u8) -> ExprRef<'ast> {
         let start = self.cur.span.start;
 
         // Parse the left-hand side (primary expression)
@@ -989,9 +1057,15 @@ impl<'src: 'ast, 'ast> Parser<'src, 'ast> {
         min_bp: u8,
     ) -> ExprRef<'ast> {
         let start = lhs.span().start;
+        // Every round of the loop wraps `lhs` in one more node.
+        let mut wraps = 0;
 
         // Pratt parselet for function calls and binary operators
         loop {
+            wraps += 1;
+            if !self.within_limit(self.depth + wraps) {
+                break;
+            }
             // Member access: <expr>.<identifier>
             if let Token::Dot = self.cur.token {
                 self.bump(); // consume '.'
